@@ -551,7 +551,7 @@ def settings_stream(ctx, rng, count, given=None):
     return problems
 
 
-def equal_atoms_stream(ctx, rng, count):
+def equal_atoms_stream(ctx, rng, count, given=None):
     """constraints with SEPARATELY BUILT, equal nonlinear atoms (the same atom over the same argument in two constraints), one of them compiled
     alone first, then both in one model in either order: value and size of the model must be those of a freshly built copy"""
     import sageopt.coniclifts as cl
@@ -568,13 +568,17 @@ def equal_atoms_stream(ctx, rng, count):
             mk = lambda: cl.sum(cl_abs(x))                                # noqa: E731
         return x, [mk() <= b1, mk() <= b2]
 
-    for t in range(count):
-        kind = rng.choice(['exp', 'norm', 'abs'])
-        b1, b2 = sorted(rng.sample([1.0, 2.0, 3.0, 5.0, 8.0], 2))
-        first = rng.choice([0, 1])                 # which constraint is compiled alone beforehand
-        order = rng.choice([[0, 1], [1, 0]])
-        how = rng.choice(['compile', 'solve'])
-        cvec = np.array([float(rng.choice([1, 2])), float(rng.choice([1, 3]))])
+    for t in range(count if given is None else len(given)):
+        if given is not None:
+            g = given[t]
+            kind, (b1, b2), first, order, how, cvec = g['kind'], g['bounds'], g['first'], g['order'], g['how'], np.array(g['c'], dtype=float)
+        else:
+            kind = rng.choice(['exp', 'norm', 'abs'])
+            b1, b2 = sorted(rng.sample([1.0, 2.0, 3.0, 5.0, 8.0], 2))
+            first = rng.choice([0, 1])                 # which constraint is compiled alone beforehand
+            order = rng.choice([[0, 1], [1, 0]])
+            how = rng.choice(['compile', 'solve'])
+            cvec = np.array([float(rng.choice([1, 2])), float(rng.choice([1, 3]))])
 
         def run_(pre):
             x, cons = model(kind, t, b1, b2)
@@ -698,6 +702,11 @@ def replay(obj):
         for what, _ in probs:
             print('  ', what)
         return 1 if probs else 0
+    if r.get('stream') == 'equal-atoms':
+        probs = equal_atoms_stream(common.RecCtx(), random.Random(0), 0, given=[r])
+        for what, _ in probs:
+            print('  ', what)
+        return 1 if probs else 0
     if 'hseed' in r:
         class C:
             def incon(self, *a):
@@ -707,7 +716,8 @@ def replay(obj):
         for what, _ in problems:
             print('  ', what)
         return 1 if problems else 0
-    return 1
+    print('this stored input cannot be executed again (unknown kind)')
+    return 2
 
 
 recheck = common.recheck_via_replay(replay)
